@@ -65,10 +65,13 @@ def showWrite : Except FErr Nat → String
 def joinOrDash (xs : List String) : String :=
   if xs.isEmpty then "-" else ",".intercalate xs
 
+/-- the `<maxlen>` argument: a number, or `d` = the constructors' default, 512 KiB of payload. -/
+def parseMl (s : String) : Option Nat := if s == "d" then some 524288 else s.toNat?
+
 def fwriteOp (w : List String) : String :=
   match w with
   | [ml, vs, sc] =>
-    match ml.toNat?, parseVals vs, parseScript sc with
+    match parseMl ml, parseVals vs, parseScript sc with
     | some ml, some vs, some sc =>
       let (rs, wr) := Writer.writeAll valCodec vs ⟨⟨[], sc⟩, [], ml⟩
       s!"{joinOrDash (rs.map showWrite)} {hexOrDash wr.snk.out} buf={wr.buffer.length}"
@@ -78,7 +81,7 @@ def fwriteOp (w : List String) : String :=
 def freadOp (w : List String) : String :=
   match w with
   | [ml, n, st, sc] =>
-    match ml.toNat?, n.toNat?, bytesOfHex st, parseScript sc with
+    match parseMl ml, n.toNat?, bytesOfHex st, parseScript sc with
     | some ml, some n, some st, some sc =>
       let (rs, rd) := Reader.readN valCodec n ⟨⟨st, sc⟩, [], ml⟩
       s!"{joinOrDash (rs.map showRead)} rem={rd.src.bytes.length} buf={rd.buffer.length}"
@@ -97,7 +100,7 @@ def showRPoll : Option (Poll (Except FErr (Option Val))) → String
 def areadOp (w : List String) : String :=
   match w with
   | [ml, st, sc, acts] =>
-    match ml.toNat?, bytesOfHex st, parseScript sc, parseRActs acts with
+    match parseMl ml, bytesOfHex st, parseScript sc, parseRActs acts with
     | some ml, some st, some sc, some acts =>
       let (os, s) := RSys.run valCodec acts ⟨AReader.init ml st sc, none⟩
       s!"{joinOrDash (os.map showRPoll)} rem={s.rd.src.bytes.length} buf={s.rd.core.buffer.length}"
@@ -126,7 +129,7 @@ def runXR (k : Nat) : List XRAct → RSys → List (Option (Poll (Except FErr (O
 def areadmOp (w : List String) : String :=
   match w with
   | [ml, st, sc, acts, k] =>
-    match ml.toNat?, bytesOfHex st, parseScript sc, parseXRActs acts, k.toNat? with
+    match parseMl ml, bytesOfHex st, parseScript sc, parseXRActs acts, k.toNat? with
     | some ml, some st, some sc, some acts, some k =>
       let (os, s) := runXR k acts ⟨AReader.init ml st sc, none⟩
       s!"{joinOrDash (os.map showRPoll)} rem={s.rd.src.bytes.length} buf={s.rd.core.buffer.length}"
@@ -178,7 +181,7 @@ def runX : List XAct → WSys → List (Option (Poll WRet)) × WSys
 def awriteOp (w : List String) : String :=
   match w with
   | [ml, vs, sc, acts] =>
-    match ml.toNat?, parseVals vs, parseScript sc with
+    match parseMl ml, parseVals vs, parseScript sc with
     | some ml, some vs, some sc =>
       match (splitList acts).mapM (parseXAct vs) with
       | some acts =>
